@@ -916,7 +916,7 @@ pub fn run(ctx: &Ctx, which: Which) -> (Acc, String, bool) {
     let ex_total = *offs.last().unwrap();
     let nb = BOUNDARY_LITS.len() as u64;
     let boundary_total = if which == Which::C07 { nb * nb * (BOUNDARY_OPS.len() as u64) / ctx.pick(4, 1) + nb * 13 } else { 0 };
-    let soup_total: u64 = ctx.pick(40_000, 1_500_000);
+    let soup_total: u64 = ctx.pick(150_000, 6_000_000);
     let fam_sizes: Vec<usize> = if ctx.quick() { vec![8, 64, 512, 4096] } else { vec![8, 64, 512, 4096, 16384] };
     let fam_total = (corpus::FAMILIES.len() * fam_sizes.len()) as u64;
     let seed = ctx.seed;
@@ -933,7 +933,7 @@ pub fn run(ctx: &Ctx, which: Which) -> (Acc, String, bool) {
         }
         v
     };
-    let wf_random: u64 = if matches!(which, Which::C03) { 0 } else { ctx.pick(30_000, 600_000) };
+    let wf_random: u64 = if matches!(which, Which::C03) { 0 } else { ctx.pick(120_000, 3_000_000) };
     let wf_total = small_asts.len() as u64 + wf_random;
     let gen_cfg = crate::ast::GenCfg::default();
     let total = ex_total + boundary_total + soup_total + fam_total + fixed_total + wf_total;
